@@ -18,7 +18,7 @@ CONFIGS = {
     'thorough': [('chains', ('H_CH', 'M_CH', 'T_CH', 'O_CH', 3, 2, 'NoGates'), 80000), ('aliases', ('H_A', 'M_A', 'T_A', 'O_A', 3, 3), 40000)],
 }
 OWNED = {'accepted', 'no_alias_refs', 'no_let_refs', 'meaning_mod_sub', 'header_carried', 'macros_kept', 'refs_follow_decls'}
-EXEC_OWNED = {'vector', 'applied_gates', 'used_exact_circuit', 'used_exact_statement', 'exact_repr'}
+EXEC_OWNED = {'vector', 'applied_gates', 'applied_count', 'step_vectors', 'used_exact_circuit', 'used_exact_statement', 'exact_repr'}
 
 
 def owned(site):
